@@ -39,7 +39,13 @@ Alphabet == {
   <<112, 32, 113, 92, 92, 32, 35, 32, 90>>, \* p q\\ # Z
   <<114, 92, 35, 120>>,                   \* r\#x        (the comment starts at #: a continuation line)
   <<92, 116, 123, 49, 125>>,              \* \t{1}       (starts with a backslash)
-  <<92, 92, 32, 32>> }                    \* \\ and trailing blanks
+  <<92, 92, 32, 32>>,                     \* \\ and trailing blanks
+  \* definitions that do not compile, next to ones that do (builtin: s)
+  <<122, 32, 123, 113, 32, 49, 125>>,     \* z {q 1}      unknown function q (a misspelt helper)
+  <<121, 32, 123, 102, 32, 49, 125>>,     \* y {f 1}      calls f: compiles exactly when `f {0}` stands before it
+  <<119, 32, 123, 48>>,                   \* w {0         unterminated statement
+  <<102, 32, 123, 125>>,                  \* f {}         empty statement; as a re-definition of f it leaves the first f alone
+  <<118, 32, 123, 115, 32, 49, 32, 50, 125>> }  \* v {s 1 2}    a builtin
 
 RECURSIVE SeqsUpTo(_)
 SeqsUpTo(n) == IF n = 0 THEN {<<>>} ELSE LET P == SeqsUpTo(n - 1) IN P \cup {Append(s, a) : s \in {p \in P : Len(p) = n - 1}, a \in Alphabet}
@@ -56,6 +62,8 @@ LDefs == {
   [name |-> <<99>>, body |-> <<92,92,92,92,120>>] }                                                                 \* c \\\\x  (starts with 4)
 Styles == {Style(a, b, cc, d, e, g) : a \in 0..5, b \in 0..2, cc \in 0..3, d \in 0..3, e \in 0..3, g \in BOOLEAN}
 
+MCBuiltins == {<<115>>, <<115, 117, 109, 105>>, <<105, 102>>,          \* s sumi if
+               <<115, 119, 105, 116, 99, 104>>, <<108, 116>>, <<103, 116>>, <<108, 101, 110>>}     \* switch lt gt len (the documentation's example)
 VARIABLE mode     \* carries the layout case in mode "layout"
 vars == <<lvars, mode>>
 
@@ -77,6 +85,13 @@ InvDone == pc = "done" =>
   /\ pos = Len(file) /\ sb = <<>>
   /\ Len(defs) + skipped = Len(Phrases(file))
   /\ (file = DocExample => defs = DocMeaning)
+\* ---- definitions that do not compile
+\* at every step: what is registered is what the definitions read so far mean under the compile rule
+InvRegs == regs = Registered(defs, MCBuiltins) /\ errs = Len(defs) - Len(regs)
+\* THE law: whatever else the file holds, every definition that compiles in its place reaches the function table ...
+InvKeepsGood == pc = "done" => (Delivered = Registered(Meaning(file), MCBuiltins) /\ (file = DocExample => (Delivered = DocMeaning /\ errs = 0)))
+\* ... and the failing ones are as if they were not written: a file of only the delivered definitions delivers the same
+InvIndep == pc = "done" => Registered(Delivered, MCBuiltins) = Delivered
 InvLayout == (Mode = "layout" /\ pc = "done") => (InLayoutDomain(mode.d) /\ defs = <<mode.d>>)
 \* the line forms really end in 0, 1, 2, 3 backslashes after stripping (for the evidence: no vacuous alphabet)
 RunsSeen == {BslRun(StripLine(a)) : a \in Alphabet}
